@@ -281,6 +281,11 @@ def run(ctx):
                   any(k.arg == 'is_initiator' and src(k.value) == 'True' for k in cc[0].keywords), 'O6',
                   'initiator: installs that ChildSa with the derived keyring as is_initiator=True', key=('O6', 'initiator-install'),
                   site=ctx.site(rs, rs.node))
+        kd = single_def(res, rs, 'child_sa_keyring')
+        ctx.check(isinstance(kd, ast.Call) and callee_name(kd) == 'generate_child_sa_key_material' and any(
+            k.arg == 'child_proposal' and src(k.value) == prop for k in kd.keywords), 'O6',
+            'initiator: the keyring is derived for the proposal the responder chose (the one installed), not for the offer',
+            key=('O6', 'initiator-keyring'), site=ctx.site(rs, rs.node))
         asg = [n for n in walk_no_nested(rs.node) if isinstance(n, ast.Assign) and n.value is x]
         ctx.check(len(asg) == 1 and src(asg[0].targets[0]) == 'self.creating_child_sa', 'O6',
                   'initiator: the completed ChildSa replaces the pending one (namedtuple _replace returns a copy)',
